@@ -174,6 +174,12 @@ pub fn verif_dir() -> String {
     std::env::var("VERIF_DIR").unwrap_or_else(|_| "/verif".to_string())
 }
 
+/// Where evidence and replay files go (default: the verif dir). Sensitivity and determinism
+/// work points this elsewhere so that the committed evidence is never overwritten by it.
+pub fn out_dir() -> String {
+    std::env::var("VERIF_OUT").unwrap_or_else(|_| verif_dir())
+}
+
 pub fn run_check(prop: &Prop, thorough: bool, verif_seed: u64, jobs: usize, scale: f64) -> CheckResult {
     let t0 = Instant::now();
     let total = ((if thorough { prop.thorough } else { prop.quick }) as f64 * scale).max(1.0) as u64;
@@ -285,8 +291,8 @@ pub fn run_check(prop: &Prop, thorough: bool, verif_seed: u64, jobs: usize, scal
                 let st = w.1.load(Ordering::Relaxed);
                 if idx != 0 && now.saturating_sub(st) > 30_000 {
                     let index = idx - 1;
-                    let path = format!("{}/replays/{}-hang-{}-{}.json", verif_dir(), prop.id, verif_seed, index);
-                    let _ = std::fs::create_dir_all(format!("{}/replays", verif_dir()));
+                    let path = format!("{}/replays/{}-hang-{}-{}.json", out_dir(), prop.id, verif_seed, index);
+                    let _ = std::fs::create_dir_all(format!("{}/replays", out_dir()));
                     let j = J::obj(vec![
                         ("property", J::s(prop.id)),
                         ("code", J::s(format!("{}.hang", prop.id))),
@@ -336,7 +342,7 @@ pub fn run_check(prop: &Prop, thorough: bool, verif_seed: u64, jobs: usize, scal
     let mut viol_json = Vec::new();
     let mut viols: Vec<_> = agg.viol.values().cloned().collect();
     viols.sort_by_key(|v| v.0);
-    let _ = std::fs::create_dir_all(format!("{}/replays", verif_dir()));
+    let _ = std::fs::create_dir_all(format!("{}/replays", out_dir()));
     for (n, (index, v, tape, sub)) in viols.iter().enumerate() {
         if n >= 6 {
             break;
@@ -358,7 +364,7 @@ pub fn run_check(prop: &Prop, thorough: bool, verif_seed: u64, jobs: usize, scal
         };
         let (c, _) = run_one(prop, Tape::replay(final_tape.clone()), &cfgt);
         let safe_code: String = fv.code.chars().map(|ch| if ch.is_ascii_alphanumeric() || ch == '.' || ch == '_' { ch } else { '_' }).collect();
-        let path = format!("{}/replays/{}-{}-{}.json", verif_dir(), safe_code, verif_seed, index);
+        let path = format!("{}/replays/{}-{}-{}.json", out_dir(), safe_code, verif_seed, index);
         let j = J::obj(vec![
             ("property", J::s(prop.id)),
             ("code", J::s(fv.code.clone())),
@@ -462,8 +468,8 @@ pub fn run_check(prop: &Prop, thorough: bool, verif_seed: u64, jobs: usize, scal
         ("violating_runs", J::u(agg.viol_runs)),
         ("violation_list", J::Arr(viol_json)),
     ]);
-    let _ = std::fs::create_dir_all(format!("{}/evidence", verif_dir()));
-    let evp = format!("{}/evidence/{}.json", verif_dir(), prop.id);
+    let _ = std::fs::create_dir_all(format!("{}/evidence", out_dir()));
+    let evp = format!("{}/evidence/{}.json", out_dir(), prop.id);
     if let Err(e) = std::fs::write(&evp, ev.to_string_pretty()) {
         eprintln!("HARNESS-ERROR cannot write {}: {}", evp, e);
         return CheckResult { exit: 2 };
@@ -482,6 +488,24 @@ pub fn run_check(prop: &Prop, thorough: bool, verif_seed: u64, jobs: usize, scal
         wall,
         agg.digest
     );
+    // everything that must not depend on the worker count or on the process
+    let mut fp = agg.digest;
+    for v in [agg.runs, agg.nontrivial, agg.sigs.len() as u64, agg.cells.len() as u64, agg.sim_ns as u64, agg.steps as u64, agg.draws as u64, agg.viol_runs, foreign_total] {
+        fp = hash_step(fp, v);
+    }
+    for (k, v) in &agg.counts {
+        for b in k.bytes() {
+            fp = hash_step(fp, b as u64);
+        }
+        fp = hash_step(fp, *v);
+    }
+    for ((c, k), v) in &agg.known_hits {
+        for b in c.bytes().chain(k.bytes()) {
+            fp = hash_step(fp, b as u64);
+        }
+        fp = hash_step(fp, *v);
+    }
+    println!("FINGERPRINT {} {:016x}", prop.id, fp);
     if exit == 0 && agg.sigs.len() < 2 {
         eprintln!("HARNESS-ERROR fewer than 2 distinct non-trivial runs");
         return CheckResult { exit: 2 };
